@@ -18,7 +18,7 @@ import numpy as np
 
 import sim  # noqa: F401
 from sim import build
-from sim.core import attempt, deep_tier, exc_tag
+from sim.core import attempt, bulk_tier, deep_tier, exc_tag
 from sim.oracle import snap, snap_diff, wellformed_problems
 
 PROPERTY = "C12"
@@ -60,8 +60,10 @@ def generate(rng, seed, part):
     objs = []
     for _ in range(n0):
         kind = rng.choice(KINDS)
+        if bulk_tier(rng):
+            kind = rng.choice(["h1_wide", "h3_wide"])  # thousands of bins, thousands of entries
         spec = {"kind": kind, "dtype": rng.choice([None, None, "float64", "int32", "float32"]),
-                "n": rng.choice([0, 2, 5, 9]), "seed": rng.randrange(1 << 30), "names": rng.random() < 0.5}
+                "n": rng.choice([0, 2, 5, 9]) if not kind.endswith("wide") else rng.choice([9, 3000]), "seed": rng.randrange(1 << 30), "names": rng.random() < 0.5}
         objs.append(spec)
     ops = []
     holders = rng.randint(2, 4)
@@ -97,8 +99,10 @@ def make_object(spec):
     n = spec["n"]
     dt = {"dtype": np.dtype(spec["dtype"])} if spec["dtype"] else {}
     names = spec.get("names")
-    if kind in ("h1", "h1_gapped", "h1_adaptive"):
-        if kind == "h1":
+    if kind in ("h1", "h1_gapped", "h1_adaptive", "h1_wide"):
+        if kind == "h1_wide":
+            b = FixedWidthBinning(bin_width=0.0009765625, bin_count=5000, bin_times_min=0)
+        elif kind == "h1":
             b = StaticBinning(np.array([[0.0, 1.0], [1.0, 2.0], [2.0, 3.5], [3.5, 4.0]]))
         elif kind == "h1_gapped":
             b = StaticBinning(np.array([[0.0, 1.0], [1.5, 2.0], [2.0, 3.0]]))
@@ -112,9 +116,11 @@ def make_object(spec):
         if n:
             h.fill_n(mk_values(r, 1, n)[:, 0])
         return h
-    if kind in ("h2", "h2_adaptive", "h3", "h3_adaptive"):
+    if kind in ("h2", "h2_adaptive", "h3", "h3_adaptive", "h3_wide"):
         d = 2 if kind.startswith("h2") else 3
-        if kind.endswith("adaptive"):
+        if kind == "h3_wide":
+            bs = [FixedWidthBinning(bin_width=0.25, bin_count=18, bin_times_min=0) for _ in range(d)]
+        elif kind.endswith("adaptive"):
             bs = [FixedWidthBinning(bin_width=1.0, bin_count=2, bin_times_min=0, adaptive=True) for _ in range(d)]
         else:
             bs = [StaticBinning(np.array([[0.0, 1.0], [1.0, 2.5], [2.5, 4.0]][: 3 if i < 2 else 2])) for i in range(d)]
@@ -277,7 +283,7 @@ def check_empty_copy(ctx, src, res):
         return
     # it must be fully usable: accept a fill and a fill_n
     probe = res.copy(include_frequencies=False) if hasattr(res, "copy") else res
-    v = [float(np.asarray(bn.bins)[0, 0]) + 1e-3 if bn.bin_count else 0.5 for bn in probe.binnings]
+    v = [float(np.asarray(bn.bins)[0].mean()) if bn.bin_count else 0.5 for bn in probe.binnings]  # inside the first bin
     ok, r1 = attempt(probe.fill, v[0] if probe.ndim == 1 else v)
     if not ok:
         ctx.violation("C12/empty-copy", f"C12/empty-copy-unusable/{cls}/fill/{exc_tag(r1)}",
